@@ -1,1 +1,14 @@
+#[cfg(feature = "p_c06")]
+mod c06;
+#[cfg(feature = "p_c13")]
 mod c13;
+#[cfg(feature = "p_cells")]
+mod cells;
+#[cfg(feature = "p_rows")]
+mod rows;
+#[cfg(feature = "p_pool")]
+mod pool;
+#[cfg(feature = "p_propset")]
+mod propset;
+#[cfg(feature = "p_c14")]
+mod c14;
